@@ -25,6 +25,7 @@ from selftest import mutate  # noqa: E402
 from selftest.thorough import focus_ranges  # noqa: E402
 
 BASE = "/tmp/suitemut"
+DESELECT = ""
 PROPS = ["C%02d" % i for i in range(1, 21)]
 
 
@@ -97,20 +98,12 @@ def worker(args):
             open(fp, "w").write(new)
             try:
                 jx = os.path.join(BASE, "j%d.xml" % k)
-                rc, log = sh("/venv/bin/python -m pytest -q -p no:cacheprovider --timeout=300 --continue-on-collection-errors --junitxml=%s >/dev/null 2>&1" % jx,
-                             cwd=wt, timeout=900)
-                passed = set()
-                failed = 0
-                try:
-                    for tc in ET.parse(jx).iter("testcase"):
-                        if any(ch.tag in ("failure", "error") for ch in tc):
-                            failed += 1
-                        elif not any(ch.tag == "skipped" for ch in tc):
-                            passed.add("%s::%s" % (tc.get("classname"), tc.get("name")))
-                except Exception:
-                    passed = set()
-                ok = bool(passed) and not (base - passed)
-                res.append({"file": rel, "op": opname, "index": idx, "desc": desc, "suite_passes": ok, "missing_stable": len(base - passed)})
+                # the baseline's 45 failing tests are deselected and the two uncollectable TAXII files ignored, so that the run
+                # can stop at the FIRST failure (-x): a mutant passes the suite iff this run exits 0
+                r_ = subprocess.run(["/venv/bin/python", "-m", "pytest", "-q", "-x", "-p", "no:cacheprovider", "--timeout=30"] + DESELECT,
+                                    cwd=wt, stdout=subprocess.DEVNULL, stderr=subprocess.DEVNULL, timeout=400)
+                ok = r_.returncode == 0
+                res.append({"file": rel, "op": opname, "index": idx, "desc": desc, "suite_passes": ok, "missing_stable": 0 if ok else 1})
             except subprocess.TimeoutExpired:
                 res.append({"file": rel, "op": opname, "index": idx, "desc": desc, "suite_passes": False, "missing_stable": -1})
             finally:
@@ -159,6 +152,19 @@ def main():
     shutil.rmtree(BASE, ignore_errors=True)
     os.makedirs(BASE)
     base = stable()
+    global DESELECT
+    rc, out = sh("/venv/bin/python -m pytest -q -p no:cacheprovider --timeout=900 --continue-on-collection-errors 2>&1 | grep '^FAILED'", cwd="/repo")
+    failing = [l[len("FAILED "):].split(" - ")[0].strip() for l in out.splitlines() if l.startswith("FAILED ")]
+    DESELECT = []
+    for f in failing:
+        DESELECT += ["--deselect", f]
+    DESELECT += ["--ignore", "stix2/test/v20/test_datastore_taxii.py", "--ignore", "stix2/test/v21/test_datastore_taxii.py"]
+    r_ = subprocess.run(["/venv/bin/python", "-m", "pytest", "-q", "-x", "-p", "no:cacheprovider", "--timeout=30"] + DESELECT, cwd="/repo",
+                        stdout=subprocess.PIPE, stderr=subprocess.STDOUT, text=True)
+    print("baseline with the %d failing tests deselected:" % len(failing), r_.stdout.strip().splitlines()[-1], flush=True)
+    if r_.returncode != 0:
+        print("baseline does not pass with the deselection; abort")
+        return
     chunks = [(k, pick[k::workers], base) for k in range(workers)]
     results = []
     try:
